@@ -59,11 +59,8 @@ def obligations(tier, kf):
         obs.append(Ob(fn, dict(kf, N=1, kind=0, which='dest'), 120).twin())
     obs.append(Ob('m_install_make', dict(kf, N=1, kind=0, which='dest'), 300).mutant('install_no_destdir'))
     obs.append(Ob('n_install_ninja', dict(kf, N=1, kind=2, which='pfx'), 300).mutant('uninstall_wrong_root'))
-    for n in range(1, (1 if q else 2) + 1):
-        obs.append(Ob('h_header_dir', dict(kf, N=n), 1500,
-                      desc='header directory with nested files, |subdir|==%d' % n))
-    hd = Ob('h_header_dir', dict(kf, N=1), 600)
-    obs += [hd.twin(), hd.mutant('uninstall_dir_flattened')]
+    hd = Ob('h_header_dir', dict(kf), 600, desc='header directory with nested files, 4 subdirectory names')
+    obs += [hd, hd.twin(), hd.mutant('uninstall_dir_flattened')]
     xp = Ob('x_post_install', {'NSEQ': 3 if q else 4}, 1500,
             desc='post-install rpath rewrite, option sequences of <= %d over 4 option kinds' % (3 if q else 4))
     obs += [xp, xp.twin(), xp.mutant('patchelf_changed_assigned')]
